@@ -45,6 +45,7 @@ func expired(w *World, e *mhub2types.SendToExternal, now time.Time) bool {
 // ------------------------------------------------------------------------------------------------
 // C04 — an outgoing transfer is in exactly one place at any time.
 type C04 struct {
+	refundedSeen map[string]bool
 	BaseOracle
 	extDone  map[string]string // chain/id -> batch key under which the external chain executed the transfer
 	maxID    map[string]uint64
@@ -269,6 +270,27 @@ func (o *C04) AfterEnd(w *World) {
 func (o *C04) AfterCommit(w *World) {
 	// user-visible status follows the lifecycle; 'refunded' is final
 	t := w.T()
+	// 'refunded' is final for every hash the hub ever reported as refunded (also for a hash shared by the
+	// several transfers of one hub transaction or one external transaction)
+	if o.refundedSeen == nil {
+		o.refundedSeen = map[string]bool{}
+	}
+	all := w.ReadState().AllTxStatuses()
+	for _, h := range sortedKeys(all) {
+		if all[h] == mhub2types.TX_STATUS_REFUNDED {
+			if !o.refundedSeen[h] {
+				w.St.Probe("status-refunded-seen")
+			}
+			o.refundedSeen[h] = true
+		}
+	}
+	for _, h := range sortedKeys(o.refundedSeen) {
+		w.St.Check("C04:refunded-final")
+		if got, ok := all[h]; !ok || got != mhub2types.TX_STATUS_REFUNDED {
+			w.Fail("C04", "status-lifecycle", "refunded-final", fmt.Sprintf("the status of %s was REFUNDED and now reads %s", h, got))
+			return
+		}
+	}
 	n := 0
 	for _, key := range sortedKeys(o.userTx) {
 		if n > 40 {
